@@ -34,6 +34,44 @@ import (
 )
 
 // ---------------------------------------------------------------------------------------------------------------
+// tripwire contexts
+//
+// lateCtx is an ordinary cancellable context that cancels itself the moment somebody consults Err() while it is not done.
+// multiScheduler and semaphore.Weighted consult Err() only on their failure paths (after Done() was seen closed), so on
+// the unchanged code a tripwire never fires. Code that looks at the context again after the semaphore granted the slot
+// makes the cancellation land exactly between "slot granted" and "Acquire / Yield returns" - the interleaving in which
+// a slot is most easily forgotten - deterministically instead of by a lucky race.
+type lateCtx struct {
+	context.Context
+	mu     sync.Mutex
+	fired  bool
+	onFire func() // cancels the context (and logs, for the trace part); called once, before Err() returns
+}
+
+func newLateCtx(parent context.Context) (*lateCtx, context.CancelFunc) {
+	ctx, cancel := context.WithCancel(parent)
+	lc := &lateCtx{Context: ctx}
+	lc.onFire = cancel
+	return lc, cancel
+}
+
+func (c *lateCtx) Err() error {
+	c.mu.Lock()
+	if c.Context.Err() == nil && !c.fired {
+		c.fired = true
+		c.onFire()
+	}
+	c.mu.Unlock()
+	return c.Context.Err()
+}
+
+func (c *lateCtx) Fired() bool {
+	c.mu.Lock()
+	defer c.mu.Unlock()
+	return c.fired
+}
+
+// ---------------------------------------------------------------------------------------------------------------
 // director
 
 type callRes struct {
@@ -49,6 +87,8 @@ type dproc struct {
 	pending chan callRes // outstanding call, nil if none
 	pendAcq bool         // the outstanding call is Acquire (else Yield)
 	st      string       // idle | run | failed  (valid when pending == nil)
+	late    *lateCtx     // non-nil: the search's context is a tripwire
+	fireSeen bool
 }
 
 type director struct {
@@ -57,11 +97,20 @@ type director struct {
 	npend int
 	stuck bool
 	panic string
+	nfired int
 }
 
-func newDirector(capacity int64, batchdiv int, dones []bool) *director {
+func newDirector(capacity int64, batchdiv int, dones, lates []bool) *director {
 	d := &director{s: search.VerifNewMultiScheduler(capacity, batchdiv, time.Hour)}
-	for _, dn := range dones {
+	for i, dn := range dones {
+		if i < len(lates) && lates[i] {
+			lc, cancel := newLateCtx(context.Background())
+			if dn {
+				cancel()
+			}
+			d.procs = append(d.procs, &dproc{ctx: lc, cancel: cancel, st: "idle", late: lc})
+			continue
+		}
 		ctx, cancel := context.WithCancel(context.Background())
 		if dn {
 			cancel()
@@ -220,13 +269,27 @@ func (d *director) do(op byte, i int) string {
 	if len(woke) > 0 {
 		w = strings.Join(woke, "+")
 	}
-	return fmt.Sprintf("%s/%s/%d.%d.%d.%d", self, w, snap.CurI, snap.CurB, snap.WaitI, snap.WaitB)
+	// tripwire contexts that fired during this operation
+	var fired []string
+	for k, q := range d.procs {
+		if q.late != nil && !q.fireSeen && q.late.Fired() {
+			q.fireSeen = true
+			fired = append(fired, fmt.Sprint(k))
+		}
+	}
+	o := fmt.Sprintf("%s/%s/%d.%d.%d.%d", self, w, snap.CurI, snap.CurB, snap.WaitI, snap.WaitB)
+	if len(fired) > 0 {
+		d.nfired += len(fired)
+		o += "/f" + strings.Join(fired, "+")
+	}
+	return o
 }
 
 type dirCase struct {
 	Cap      int64  `json:"cap"`
 	Batchdiv int    `json:"batchdiv"`
 	Dones    string `json:"dones"`
+	Lates    string `json:"lates,omitempty"` // which searches have a tripwire context
 	Ops      string `json:"ops"`
 }
 
@@ -272,7 +335,11 @@ func genDir(r *gen.Rand, misuse bool) (dirCase, string, *director) {
 	for i := range dones {
 		dones[i] = r.Chance(1, 12)
 	}
-	d := newDirector(capacity, batchdiv, dones)
+	lates := make([]bool, n)
+	for i := range lates {
+		lates[i] = !dones[i] && r.Chance(1, 3)
+	}
+	d := newDirector(capacity, batchdiv, dones, lates)
 	released := make([]bool, n)
 	var ops, obs []string
 	emit := func(op byte, i int) {
@@ -326,10 +393,17 @@ func genDir(r *gen.Rand, misuse bool) (dirCase, string, *director) {
 			emit('r', i)
 		}
 	}
-	dc := dirCase{Cap: capacity, Batchdiv: batchdiv, Dones: bits(dones), Ops: join(ops)}
+	dc := dirCase{Cap: capacity, Batchdiv: batchdiv, Dones: bits(dones), Lates: bits(lates), Ops: join(ops)}
 	snap := d.s.Snapshot()
 	impl := fmt.Sprintf("caps=%d.%d obs=%s", snap.SizeI, snap.SizeB, join(obs))
 	return dc, impl, d
+}
+
+func lateStr(s string) string {
+	if s == "" {
+		return "-"
+	}
+	return s
 }
 
 func join(x []string) string {
@@ -348,7 +422,13 @@ func replayDir(dc dirCase) (dirCase, string, *director) {
 			dones = append(dones, c == '1')
 		}
 	}
-	d := newDirector(dc.Cap, dc.Batchdiv, dones)
+	var lates []bool
+	if dc.Lates != "-" {
+		for _, c := range dc.Lates {
+			lates = append(lates, c == '1')
+		}
+	}
+	d := newDirector(dc.Cap, dc.Batchdiv, dones, lates)
 	var obs, done []string
 	if dc.Ops != "-" {
 		for _, o := range strings.Split(dc.Ops, ",") {
@@ -392,7 +472,7 @@ func replayDir(dc dirCase) (dirCase, string, *director) {
 
 func emitDir(w *gen.Writer, dc dirCase, impl string, d *director, class string) {
 	c := gen.Case{
-		In:     fmt.Sprintf("dir %d %d %s %s", dc.Cap, dc.Batchdiv, dc.Dones, dc.Ops),
+		In:     fmt.Sprintf("dir %d %d %s %s late=%s", dc.Cap, dc.Batchdiv, dc.Dones, dc.Ops, lateStr(dc.Lates)),
 		Impl:   impl,
 		Class:  class,
 		Detail: gen.Detail(map[string]any{"kind": "dir", "case": dc}),
@@ -405,6 +485,13 @@ func emitDir(w *gen.Writer, dc dirCase, impl string, d *director, class string) 
 	}
 	if strings.Contains(impl, "b/") {
 		w.Count("dir:some-call-blocked", 1)
+	}
+	if strings.Contains(dc.Lates, "1") {
+		w.Count("dir:with-tripwire-contexts", 1)
+		// a tripwire search that was granted a slot straight away / after queueing / on its way to batch
+		if d.nfired > 0 {
+			w.Count("dir:tripwire-fired", 1)
+		}
 	}
 	if strings.Contains(impl, "e/") || strings.Contains(impl, "e+") || strings.Contains(impl, "e,") {
 		w.Count("dir:some-call-failed", 1)
@@ -425,6 +512,7 @@ type tracer struct {
 	maxI     int64
 	maxB     int64
 	overflow string
+	fired    atomic.Int64
 }
 
 // maybeSnap (mu held): exact reading iff no release is in progress and every in-flight acquire is queued.
@@ -499,13 +587,24 @@ func runTrace(cfg traceCfg) (in, impl, goVerdict, key string, stats map[string]i
 			}
 			for round := 0; round < cfg.Rounds; round++ {
 				p := int(next.Add(1) - 1)
-				ctx, cancel := context.WithCancel(context.Background())
+				var ctx context.Context
+				var cancel context.CancelFunc
+				var lc *lateCtx
+				if r.Chance(1, 4) {
+					lc, cancel = newLateCtx(context.Background())
+					ctx = lc
+				} else {
+					ctx, cancel = context.WithCancel(context.Background())
+				}
 				var cancelOnce sync.Once
 				doCancel := func() {
 					cancelOnce.Do(func() {
 						t.log(fmt.Sprintf("cn%d", p), 0, 0) // logged before the context is done
 						cancel()
 					})
+				}
+				if lc != nil {
+					lc.onFire = func() { t.fired.Add(1); doCancel() } // a tripwire that fires is a cancellation like any other
 				}
 				var tm *time.Timer
 				switch r.Intn(6) {
@@ -569,21 +668,21 @@ func runTrace(cfg traceCfg) (in, impl, goVerdict, key string, stats map[string]i
 	go func() { wg.Wait(); close(waited) }()
 	select {
 	case <-waited:
-	case <-time.After(60 * time.Second):
+	case <-time.After(30 * time.Second):
 		// searches are blocked for good (leaked slots): report and abandon them
 		t.mu.Lock()
 		ev := append([]string(nil), t.ev...)
 		t.mu.Unlock()
 		sn := s.Snapshot()
 		return fmt.Sprintf("trace %d %d %d %s", sn.SizeI, sn.SizeB, int(next.Load()), join(ev)), fmt.Sprintf("cur=%d.%d", sn.CurI, sn.CurB),
-			fmt.Sprintf("searches still blocked after 60s with %d interactive / %d batch slots held and %d+%d queued", sn.CurI, sn.CurB, sn.WaitI, sn.WaitB),
+			fmt.Sprintf("searches still blocked after 30s with %d interactive / %d batch slots held and %d+%d queued", sn.CurI, sn.CurB, sn.WaitI, sn.WaitB),
 			"stuck", map[string]int{}
 	}
 	final := s.Snapshot()
 	n := int(next.Load())
 	in = fmt.Sprintf("trace %d %d %d %s", final.SizeI, final.SizeB, n, join(t.ev))
 	impl = fmt.Sprintf("cur=%d.%d", final.CurI, final.CurB)
-	stats = map[string]int{"trace:exact-snapshots": t.snaps, "trace:events": len(t.ev)}
+	stats = map[string]int{"trace:exact-snapshots": t.snaps, "trace:events": len(t.ev), "trace:tripwires-fired": int(t.fired.Load())}
 	if t.maxI == final.SizeI {
 		stats["trace:interactive-saturated"] = 1
 	}
@@ -720,16 +819,25 @@ func runE2E(cfg e2eCfg) (goVerdict, key string, stats map[string]int) {
 					time.AfterFunc(d, cancel)
 					cancelled = true
 				}
+				// StreamSearch and List hand the caller's context to the scheduler: give some of them a tripwire
+				var lc *lateCtx
+				if !cancelled && r.Chance(1, 3) {
+					var c2 context.CancelFunc
+					lc, c2 = newLateCtx(ctx)
+					_ = c2 // cancelled with its parent at the end of the request
+					ctx = lc
+				}
+				wasCancelled := func() bool { return cancelled || (lc != nil && lc.Fired()) }
 				q := &query.Substring{Pattern: "needle"}
 				switch r.Intn(4) {
 				case 0, 1:
 					res, err := ss.Search(ctx, q, &zoekt.SearchOptions{})
 					if err != nil {
 						nErr.Add(1)
-						if !cancelled {
+						if !wasCancelled() {
 							bad.Store("Search failed without cancellation: " + err.Error())
 						}
-					} else if !cancelled {
+					} else if !wasCancelled() {
 						nFull.Add(1)
 						if len(res.Files) != cfg.Shards {
 							bad.Store(fmt.Sprintf("uncancelled Search returned %d files, want %d", len(res.Files), cfg.Shards))
@@ -740,10 +848,10 @@ func runE2E(cfg e2eCfg) (goVerdict, key string, stats map[string]int) {
 					err := ss.StreamSearch(ctx, q, &zoekt.SearchOptions{}, &cs)
 					if err != nil {
 						nErr.Add(1)
-						if !cancelled {
+						if !wasCancelled() {
 							bad.Store("StreamSearch failed without cancellation: " + err.Error())
 						}
-					} else if !cancelled {
+					} else if !wasCancelled() {
 						nFull.Add(1)
 						if cs.files != cfg.Shards {
 							bad.Store(fmt.Sprintf("uncancelled StreamSearch delivered %d files, want %d", cs.files, cfg.Shards))
@@ -753,14 +861,14 @@ func runE2E(cfg e2eCfg) (goVerdict, key string, stats map[string]int) {
 					rl, err := ss.List(ctx, &query.Const{Value: true}, nil)
 					if err != nil {
 						nErr.Add(1)
-						if !cancelled {
+						if !wasCancelled() {
 							bad.Store("List failed without cancellation: " + err.Error())
 						}
-					} else if !cancelled && len(rl.Repos) != cfg.Shards {
+					} else if !wasCancelled() && len(rl.Repos) != cfg.Shards {
 						bad.Store(fmt.Sprintf("uncancelled List returned %d repos, want %d", len(rl.Repos), cfg.Shards))
 					}
 				}
-				if cancelled {
+				if wasCancelled() {
 					nCancelled.Add(1)
 				}
 				cancel()
@@ -771,9 +879,9 @@ func runE2E(cfg e2eCfg) (goVerdict, key string, stats map[string]int) {
 	go func() { wg.Wait(); close(done) }()
 	select {
 	case <-done:
-	case <-time.After(120 * time.Second):
+	case <-time.After(45 * time.Second):
 		close(stop)
-		return "requests did not finish within 120s (deadlock or lost wake-up)", "stuck", nil
+		return "requests did not finish within 45s (deadlock or lost wake-up)", "stuck", nil
 	}
 	close(stop)
 	sampler.Wait()
@@ -828,8 +936,18 @@ func runStored(w *gen.Writer, st stored, class string) {
 	}
 }
 
+// once searches got stuck for good (leaked slots), further concurrent runs would each sit out their watchdog
+var stuckRuns int
+
 func emitTrace(w *gen.Writer, cfg traceCfg, class string) {
+	if stuckRuns >= 2 {
+		w.Count("skipped-after-stuck-runs", 1)
+		return
+	}
 	in, impl, g, key, stats := runTrace(cfg)
+	if key == "stuck" {
+		stuckRuns++
+	}
 	for k, v := range stats {
 		w.Count(k, v)
 	}
@@ -838,7 +956,14 @@ func emitTrace(w *gen.Writer, cfg traceCfg, class string) {
 }
 
 func emitE2E(w *gen.Writer, cfg e2eCfg, class string) {
+	if stuckRuns >= 2 {
+		w.Count("skipped-after-stuck-runs", 1)
+		return
+	}
 	g, key, stats := runE2E(cfg)
+	if key == "stuck" {
+		stuckRuns++
+	}
 	for k, v := range stats {
 		if strings.HasPrefix(k, "e2e:max") {
 			continue
